@@ -19,7 +19,8 @@ func init() {
 			"(X) the replay state is only touched under its mutex, each attempt reads through a handle created by that attempt's own rewind, and a stale handle cannot reach the source (equality truth table on the generation); " +
 			"(E) a failed upload unblocks everybody: deferred pipe closes in both goroutines, CloseWithError on serialisation failure, error channels sized for their senders and closed, Close() drains both, the publication of the response is a select next to the request context. " +
 			"Not decided: the byte content of an attempt for a given fault offset inside net/http.Transport. " +
-			"(B) offset agreement inside the replay buffer's Read: with k bytes replayed and n bytes read from the source into p[k:], the retained bytes are p[k:k+n] appended at writeHead, writeHead advances by the retained count and k+n is reported — evaluated for k=3,n=5 and k=0,n=5 through nested slices.",
+			"(B) offset agreement inside the replay buffer's Read: with k bytes replayed and n bytes read from the source into p[k:], the retained bytes are p[k:k+n] appended at writeHead, writeHead advances by the retained count and k+n is reported — evaluated for k=3,n=5 and k=0,n=5 through nested slices. " +
+			"(A, second part) the upload request has no GetBody and no body type for which http.NewRequest sets one, so net/http never re-sends it inside one client.Do.",
 		Assumptions: []string{
 			"net/http.Transport reads Request.Body only through its Read method; io.Pipe delivers each write to exactly one reader",
 			"a reader goroutine superseded by a retry is eventually released by the next pipe write or close",
@@ -105,6 +106,7 @@ func runC06(c *Ctx) {
 			c06Rewind(c, p, "C06.S", f, do)
 		}
 	}
+	ruleNoGetBody(c, p, "C06.A")
 	c06Refusal(c, p)
 	c.Rule("C06.B", "the replay buffer retains exactly the bytes it handed out, at the offsets it handed them out", 9)
 	c06Retain(c, p)
@@ -467,7 +469,7 @@ func c06Unblock(c *Ctx, p *Prog) {
 	if post == nil || write == nil {
 		return
 	}
-	g1, g2 := post.Parent(), write.Parent()
+	g1, g2 := Owner(post), Owner(write)
 	c.Check("C06.E", "goroutines:distinct", p, f.Pos(), g1 != g2 && g1 != f && g2 != f && goBodyOnce(g1) && goBodyOnce(g2), "upload and serialisation run in two goroutines started once each", "upload and serialisation no longer run in two separate goroutines")
 	deferredOnEntry := func(fn *ssa.Function, pred func(*ssa.Defer) bool) bool {
 		for _, in := range fn.Blocks[0].Instrs {
@@ -564,20 +566,20 @@ func c06Unblock(c *Ctx, p *Prog) {
 			}
 		}
 		c.Check("C06.E", "forwarder.Close:waits-for-both", p, cl.Pos(), got["postErrChan"] && got["writeErrChan"], "Close receives from both error channels", "responseForwarder.Close no longer waits for both the uploader and the serialiser: upload errors go unreported")
-		// non-nil results are returned
-		n := 0
-		EachInstr(cl, func(i ssa.Instruction) {
-			if ifi, ok := i.(*ssa.If); ok {
-				if v, succ, ok := ErrNilTest(ifi); ok {
-					blk := ifi.Block().Succs[succ]
-					for _, in := range blk.Instrs {
-						if r, isR := in.(*ssa.Return); isR && len(r.Results) == 1 && SameValue(r.Results[0], v) {
-							n++
-						}
-					}
+		// non-nil results are returned: distinct error values that reach a return
+		// (`if err != nil { return err }` or `return <-ch` as the last statement)
+		retd := map[ssa.Value]bool{}
+		for _, r := range Returns(cl) {
+			if len(r.Results) != 1 {
+				continue
+			}
+			for _, v := range Roots(ReturnValue(r, 0)) {
+				if !IsNilConst(v) {
+					retd[v] = true
 				}
 			}
-		})
+		}
+		n := len(retd)
 		c.Check("C06.E", "forwarder.Close:returns-errors", p, cl.Pos(), n >= 3, "each non-nil error (writer close, upload, serialisation) is returned", fmt.Sprintf("only %d of the three error sources are returned by Close", n))
 		// the literal binds the channels of this forwarder
 		as := AllocsOf(f, "agent/utils.responseForwarder")
